@@ -547,7 +547,10 @@ def correspondence(ctx):
 
         def gen(k):
             cnt = min(shard, n - k * shard)
-            return ("s%d" % k, run_corr(comp, ["gen", "-seed", str(ctx.seed * 1000 + k), "-n", str(cnt)]))
+            # properties that share a component (the whole-simulation model serves C03, C08, C09, C11) draw
+            # different case streams, so together they cover more
+            base = ctx.seed * 1000 + int(re.sub(r"\D", "", ctx.prop) or 0) * 1000003
+            return ("s%d" % k, run_corr(comp, ["gen", "-seed", str(base + k), "-n", str(cnt)]))
         with ThreadPoolExecutor(max_workers=8) as ex:
             for b in ex.map(gen, range(nsh)):
                 batches.append(b)
